@@ -34,6 +34,8 @@ def ev(e):
         return rat(e["v"])
     if op == "undef":
         return "undef"
+    if op == "any01":
+        return "any01"
     a = ev(e["a"])
     if a == "undef":
         return "undef"
@@ -78,6 +80,8 @@ def agrees(expected, observed, rtol=1e-9, atol=1e-11):
         return False
     if expected == "undef":
         return math.isnan(observed) or math.isinf(observed)
+    if expected == "any01":
+        return 0.0 <= observed <= 1.0
     if math.isnan(expected):
         return math.isnan(observed)
     if math.isinf(expected):
